@@ -54,7 +54,8 @@ class Section(dict):
 
         if self.imports:
             for pkgname in self.imports:
-                result.append('%import ' + pkgname)
+                # as for values below: a literal '$' is written '$$'
+                result.append('%import ' + pkgname.replace('$', '$$'))
             result.append('')
 
         if self.type:
